@@ -268,8 +268,7 @@ def step (st : St) (w : List String) : St × String :=
   | ["getcell", c, r] =>
     match nat? c, nat? r with
     | some c, some r =>
-      let (g', sid) := Impl.getCellStyle st.grid c r
-      ({ st with grid := g' }, "ok " ++ natS sid ++ " S=" ++ natS (Spec.resolve st.lv c r))
+      (st, "ok " ++ natS (Impl.getCellStyle st.grid c r) ++ " S=" ++ natS (Spec.resolve st.lv c r))
     | _, _ => (st, "bad-op")
   | ["getcol", c] =>
     match nat? c with
